@@ -192,6 +192,95 @@ def gen_reduction_ops(tree):
     return out, names
 
 
+# ---------------------------------------------------------------- _weight_code_sum (integer loop with early return)
+def zexpr(e, arrays):
+    """integer expression over names, literals, + - *, and arr[-1] (the last element)"""
+    if isinstance(e, ast.Name):
+        return e.id
+    if isinstance(e, ast.Constant) and isinstance(e.value, int) and not isinstance(e.value, bool):
+        return f"({e.value})" if e.value < 0 else str(e.value)
+    if isinstance(e, ast.UnaryOp) and isinstance(e.op, ast.USub) and isinstance(e.operand, ast.Constant):
+        return f"(-{e.operand.value})"
+    if isinstance(e, ast.BinOp) and isinstance(e.op, (ast.Add, ast.Sub, ast.Mult)):
+        op = {ast.Add: "+", ast.Sub: "-", ast.Mult: "*"}[type(e.op)]
+        return f"({zexpr(e.left, arrays)} {op} {zexpr(e.right, arrays)})"
+    if isinstance(e, ast.Subscript) and isinstance(e.value, ast.Name) and e.value.id in arrays:
+        idx = e.slice
+        if isinstance(idx, ast.UnaryOp) and isinstance(idx.op, ast.USub) and isinstance(idx.operand, ast.Constant) and idx.operand.value == 1:
+            return f"(last {e.value.id} 0)"
+    fail(e, "integer expression")
+
+
+def zcond(e, arrays):
+    if isinstance(e, ast.Compare) and len(e.ops) == 1 and isinstance(e.ops[0], ast.Eq):
+        return f"({zexpr(e.left, arrays)} =? {zexpr(e.comparators[0], arrays)})"
+    fail(e, "integer condition")
+
+
+def is_all_but_last(e, name):
+    return (isinstance(e, ast.Subscript) and isinstance(e.value, ast.Name) and e.value.id == name and isinstance(e.slice, ast.Slice)
+            and e.slice.lower is None and e.slice.step is None and isinstance(e.slice.upper, ast.UnaryOp)
+            and isinstance(e.slice.upper.op, ast.USub) and isinstance(e.slice.upper.operand, ast.Constant) and e.slice.upper.operand.value == 1)
+
+
+def gen_weight_code_sum(tree):
+    fns = [n for n in tree.body if isinstance(n, ast.FunctionDef) and n.name == "_weight_code_sum"]
+    if len(fns) != 1:
+        raise Unsupported("_weight_code_sum not found exactly once")
+    fn = fns[0]
+    params = [a.arg for a in fn.args.args]
+    if len(params) != 2:
+        fail(fn, "_weight_code_sum signature")
+    A, B = params
+    body = [s for s in fn.body if not (isinstance(s, ast.Expr) and isinstance(s.value, ast.Constant) and isinstance(s.value.value, str))]
+    if len(body) != 4:
+        fail(fn, "_weight_code_sum shape (init, loop, tail test, return)")
+    init, loop, tail, ret = body
+    if not (isinstance(init, ast.Assign) and len(init.targets) == 1 and isinstance(init.targets[0], ast.Name)):
+        fail(init, "accumulator initialisation")
+    acc = init.targets[0].id
+    acc0 = zexpr(init.value, [])
+    if not (isinstance(loop, ast.For) and not loop.orelse and isinstance(loop.target, ast.Tuple) and len(loop.target.elts) == 2
+            and all(isinstance(x, ast.Name) for x in loop.target.elts)
+            and isinstance(loop.iter, ast.Call) and isinstance(loop.iter.func, ast.Name) and loop.iter.func.id == "zip" and len(loop.iter.args) == 2
+            and is_all_but_last(loop.iter.args[0], A) and is_all_but_last(loop.iter.args[1], B)):
+        fail(loop, "loop header (for c, w in zip(codes[:-1], weights[:-1]))")
+    c, w = (x.id for x in loop.target.elts)
+    if len(loop.body) != 2:
+        fail(loop, "loop body (early return, accumulate)")
+    early, upd = loop.body
+    if not (isinstance(early, ast.If) and not early.orelse and len(early.body) == 1 and isinstance(early.body[0], ast.Return)):
+        fail(early, "early return")
+    early_c, early_r = zcond(early.test, []), zexpr(early.body[0].value, [])
+    if not (isinstance(upd, ast.AugAssign) and isinstance(upd.target, ast.Name) and upd.target.id == acc and isinstance(upd.op, ast.Add)):
+        fail(upd, "accumulation")
+    step = f"({acc} + {zexpr(upd.value, [])})"
+    if not (isinstance(tail, ast.If) and not tail.orelse and len(tail.body) == 1 and isinstance(tail.body[0], ast.Return)):
+        fail(tail, "tail test")
+    tail_c, tail_r = zcond(tail.test, [A, B]), zexpr(tail.body[0].value, [A, B])
+    if not isinstance(ret, ast.Return):
+        fail(ret, "final return")
+    final = zexpr(ret.value, [A, B])
+    return f"""(* GENERATED by translator/py2coq.py from groupby_lib/groupby/factorization.py:_weight_code_sum — do not edit. *)
+From Coq Require Import List ZArith Bool.
+Import ListNotations.
+Open Scope Z_scope.
+
+(* the loop over zip({A}[:-1], {B}[:-1]); None = the early `return` (its value is {early_r}) *)
+Fixpoint g_wcs_loop (cw : list (Z * Z)) ({acc} : Z) : option Z :=
+  match cw with
+  | [] => Some {acc}
+  | ({c}, {w}) :: rest => if {early_c} then None else g_wcs_loop rest {step}
+  end.
+
+Definition g_weight_code_sum ({A} {B} : list Z) : Z :=
+  match g_wcs_loop (combine (removelast {A}) (removelast {B})) {acc0} with
+  | None => {early_r}
+  | Some {acc} => if {tail_c} then {tail_r} else {final}
+  end.
+"""
+
+
 # ---------------------------------------------------------------- tables
 def str_consts_passed_as_reducer(fn: ast.FunctionDef):
     """reducer names a group_*/cum* wrapper can pass to its dispatcher"""
@@ -396,12 +485,14 @@ def main():
         ro += "\nDefinition gen_reduction_op_names : list String.string :=\n  [" + "; ".join(f'"{n}"%string' for n in names2) + "]%list.\n"
         ro = ro.replace("From Coq Require Import List ZArith Bool.", "From Coq Require Import List ZArith Bool String.\nImport ListNotations.")
         tb = "(* GENERATED by translator/py2coq.py — do not edit. *)\n" + gen_tables(trees)
+        wc = gen_weight_code_sum(trees["factorization"])
     except Unsupported as e:
         print(f"py2coq: {e}", file=sys.stderr)
         sys.exit(2)
     write_if_changed(outdir / "ScalarFuncsGen.v", sf)
     write_if_changed(outdir / "ReductionOpsGen.v", ro)
     write_if_changed(outdir / "TablesGen.v", tb)
+    write_if_changed(outdir / "FactorizeGen.v", wc)
     print(f"py2coq: {len(names)} ScalarFuncs, {len(names2)} NumbaReductionOps")
 
 
